@@ -1,4 +1,204 @@
-(* C01 (expression-lowering slice) - property theorems (under construction: see Proofs.v) *)
-From Coq Require Import ZArith NArith List Bool.
+(* C01 (expression-lowering slice) - property theorems: the HIR statements that `ExpressionLoweringManager::lower`
+   (crates/samlang-compiler/src/hir_lowering.rs 205-661, 1138-1170) emits for a source expression compute, in every
+   environment and against every world, the value and the history of calls that the source semantics prescribes, or
+   end the same way.
+   Model: Syntax.v (source expressions, HIR fragment), SrcSem.v (big-step source semantics, calls answered by an
+   oracle), HirSem.v (executable semantics of the statements), Lower.v (the lowering, statement by statement, with
+   the counter of Heap::alloc_temp_str and the real scope stack; its last part is the vocabulary used below).
+   `tmp k` is the k-th temporary: arbitrary, injective.  Fragment: literals, variables, class receivers, ! and unary -,
+   arithmetic and comparisons, && and ||, ::, calls of class functions / methods / function values, method references,
+   field access, tuples, if / else (chains), blocks with `let x` / `let _` / `let (x, _, y)` / expression statements.
+   lambda expressions (context record, function value; the synthetic function has its own theorem).
+   Not in the fragment: match and `if let` (patterns: C01pat), `let` with a nested or object pattern. *)
+From Coq Require Import ZArith NArith List Bool Lia.
 Import ListNotations.
-From SV Require Import Common.Int32 C01expr.Syntax C01expr.SrcSem C01expr.HirSem C01expr.Lower C01expr.Corr.
+From SV Require Import Common.Int32 C01expr.Syntax C01expr.SrcSem C01expr.HirSem C01expr.Lower C01expr.Corr
+  C01expr.Proofs C01expr.ProofsMain C01expr.ProofsParts C01expr.ProofsWitness.
+
+(* MAIN THEOREM.  For every expression e of the fragment, every scope stack cx and counter n, every source
+   environment r, HIR environment s and history tr such that every visible source variable resolves (through cx)
+   to a HIR variable holding its value that is not a temporary still to be drawn (inv), provided no `let` inside e
+   rebinds a visible name (ns; the checker's rule): if the source evaluation of e yields value v and history tr',
+   the emitted statements run to the end with history tr', the result expression then evaluates to v, only
+   temporaries drawn for e were written, and the result expression is not overwritten by anything drawn later;
+   if the source evaluation ends in an arithmetic trap or in a call that does not return, the statements end the
+   same way with the same history.  (Order of receiver / callee and arguments: callee first, as the compiler
+   implements it.) *)
+Theorem C01expr_lower_sound :
+  forall (w : world) (tmp : nat -> N), (forall i j, tmp i = tmp j -> i = j) ->
+  forall e cx n r s tr D ss re n' cx',
+    lower Pinned tmp e cx n = (ss, re, n', cx') -> inv tmp r cx s n -> dom_in r D -> ns D e ->
+    sound tmp w s tr n n' ss re (seval w true r e tr).
+Proof. exact (fun w tmp inj => proj1 (lower_sound_all w tmp inj)). Qed.
+
+(* the same for argument lists (left to right) and for the statements of a block *)
+Theorem C01expr_lower_args_sound :
+  forall (w : world) (tmp : nat -> N), (forall i j, tmp i = tmp j -> i = j) ->
+  forall es cx n r s tr D ss rs n' cx',
+    lower_args Pinned tmp es cx n = (ss, rs, n', cx') -> inv tmp r cx s n -> dom_in r D -> nss D es ->
+    sound_l tmp w s tr n n' ss rs (seval_args w true r es tr).
+Proof. exact (fun w tmp inj => proj1 (proj2 (lower_sound_all w tmp inj))). Qed.
+
+Theorem C01expr_lower_blk_sound :
+  forall (w : world) (tmp : nat -> N), (forall i j, tmp i = tmp j -> i = j) ->
+  forall b cx n r s tr D ss re n' cx',
+    lower_blk Pinned tmp b cx n = (ss, re, n', cx') -> cx <> [] -> inv tmp r cx s n -> dom_in r D -> nsb D b ->
+    sound tmp w s tr n n' ss re (seval_blk w true r b tr).
+Proof. exact (fun w tmp inj => proj2 (proj2 (lower_sound_all w tmp inj))). Qed.
+
+(* A whole function body: parameters bound to themselves (ExpressionLoweringManager::new), none of them a
+   temporary; running the lowered body from the argument environment gives what the source semantics gives. *)
+Theorem C01expr_lower_body_correct :
+  forall (w : world) (tmp : nat -> N), (forall i j, tmp i = tmp j -> i = j) ->
+  forall params body r ss re n,
+    lower_body Pinned tmp params body = (ss, re, n) ->
+    (forall x, r x <> None -> In x params) -> (forall p i, In p params -> tmp i <> p) -> ns params body ->
+    forall tr, agrees (seval w true r body tr) (run_lowered w ss re r tr).
+Proof. exact lower_body_correct. Qed.
+
+(* The synthetic function made for a lambda (create_synthetic_lambda_function: parameters `_this` = the context and
+   the lambda's, one IndexedAccess per captured variable, then the lowered body): called with the context record and
+   the arguments, it computes what the body of the lambda computes in the source environment that binds the captured
+   variables to the fields of the context and the parameters to the arguments.  (At the place of the lambda expression
+   itself the main theorem covers the StructInit / ClosureInit statements: the value is the function value
+   `VClo (FLam l) context`.) *)
+Theorem C01expr_lambda_fn_correct :
+  forall (w : world) (tmp : nat -> N), (forall i j, tmp i = tmp j -> i = j) ->
+  forall caps params body n1 ps ss re n3 vs r s0,
+    lambda_fn Pinned tmp caps params body n1 = (ps, ss, re, n3) ->
+    NoDup caps -> length vs = length caps ->
+    ~ In this_name params -> (forall c, In c caps -> ~ In c params) ->
+    (forall i x, In x (this_name :: params ++ caps) -> tmp i <> x) ->
+    s0 this_name = Some (VStruct vs) ->
+    (forall j c, nth_error caps j = Some c -> r c = nth_error vs j) ->
+    (forall p, In p params -> r p = s0 p) ->
+    (forall x, r x <> None -> In x (params ++ caps)) ->
+    ns (params ++ caps) body ->
+    forall tr, ps = this_name :: params /\ agrees (seval w true r body tr) (run_lowered w ss re s0 tr).
+Proof. exact lambda_fn_correct. Qed.
+
+(* Counter and scope stack, for BOTH versions of the code: the counter only grows; an expression leaves the stack as
+   it was, except for scopes left on top (lower_if_else returning early without pop_scope) whose keys are names bound
+   inside the expression; the statements of a block also add their own bindings to the top scope. *)
+Theorem C01expr_counter_and_scopes :
+  forall (ver : version) (tmp : nat -> N),
+    (forall e cx n ss re n' cx', lower ver tmp e cx n = (ss, re, n', cx') -> (n <= n')%nat /\ extE (bv e) cx cx') /\
+    (forall es cx n ss rs n' cx', lower_args ver tmp es cx n = (ss, rs, n', cx') -> (n <= n')%nat /\ extE (bvs es) cx cx') /\
+    (forall b cx n ss re n' cx', lower_blk ver tmp b cx n = (ss, re, n', cx') -> cx <> [] -> (n <= n')%nat /\ extB (bvb b) cx cx').
+Proof. exact shape_all. Qed.
+
+(* Short circuit: the statements of `a && b` make exactly the calls of a when a yields false, and exactly the calls
+   of a followed by those of b (with b's value) when a yields true; dually for `||`.  So the right operand is
+   evaluated exactly when the left one does not decide. *)
+Theorem C01expr_and_short_circuit :
+  forall (w : world) (tmp : nat -> N), (forall i j, tmp i = tmp j -> i = j) ->
+  forall a b cx n r s tr D ss re n' cx' tr1,
+    lower Pinned tmp (EAnd a b) cx n = (ss, re, n', cx') -> inv tmp r cx s n -> dom_in r D -> ns D (EAnd a b) ->
+    (seval w true r a tr = SVal (VInt 0) tr1 -> run_lowered w ss re s tr = SVal (VInt 0) tr1) /\
+    (seval w true r a tr = SVal (VInt 1) tr1 -> agrees (seval w true r b tr1) (run_lowered w ss re s tr)).
+Proof. exact and_short_circuit. Qed.
+
+Theorem C01expr_or_short_circuit :
+  forall (w : world) (tmp : nat -> N), (forall i j, tmp i = tmp j -> i = j) ->
+  forall a b cx n r s tr D ss re n' cx' tr1,
+    lower Pinned tmp (EOr a b) cx n = (ss, re, n', cx') -> inv tmp r cx s n -> dom_in r D -> ns D (EOr a b) ->
+    (seval w true r a tr = SVal (VInt 1) tr1 -> run_lowered w ss re s tr = SVal (VInt 1) tr1) /\
+    (seval w true r a tr = SVal (VInt 0) tr1 -> agrees (seval w true r b tr1) (run_lowered w ss re s tr)).
+Proof. exact or_short_circuit. Qed.
+
+(* The statements of every direct sub-expression that is not dead by the lowering's own constant test are present in
+   the lowering, as contiguous blocks in evaluation order (and so, by induction, at every depth). *)
+Theorem C01expr_parts_present :
+  forall (tmp : nat -> N) e cx n,
+    blocks (map flat (parts Pinned tmp e cx n)) (flat (stmts_of (lower Pinned tmp e cx n))).
+Proof. exact parts_present. Qed.
+
+(* ------------------------------------------------------------------ refutations *)
+(* The seeded change /verif/seeded/C01-7 (Lower.Seeded7: `e && <literal>` / `e || <literal>` without a branch, keeping
+   only the statements of the left operand): the body theorem is FALSE of it.  `x && (f() || true)` with x = true:
+   the source semantics calls f, the lowered statements call nothing. *)
+Theorem C01expr_seeded7_refuted :
+  exists (w : world) params body r,
+    (forall x, r x <> None -> In x params) /\ (forall p i, In p params -> tmp0 i <> p) /\ ns params body /\
+    ~ agrees (seval w true r body []) (run_body Seeded7 w params body r).
+Proof. exact seeded7_refuted. Qed.
+
+(* ... and so is the presence of the right operand's statements *)
+Theorem C01expr_seeded7_parts_refuted :
+  exists e cx n, ~ blocks (map flat (parts Seeded7 tmp0 e cx n)) (flat (stmts_of (lower Seeded7 tmp0 e cx n))).
+Proof. exact seeded7_parts_refuted. Qed.
+
+(* The letter of spec.md 6.7.5 / 6.15(2) (arguments first, then the receiver / callee) is NOT what the lowering
+   implements: `f1().f2(f3())` calls f1, f3, f2 (open finding C01-callee-evaluated-before-arguments). *)
+Theorem C01expr_args_first_refuted :
+  exists (w : world) params body r,
+    (forall x, r x <> None -> In x params) /\ (forall p i, In p params -> tmp0 i <> p) /\ ns params body /\
+    ~ agrees (seval w false r body []) (run_body Pinned w params body r).
+Proof. exact args_first_refuted. Qed.
+
+(* The hypothesis `ns` is necessary: with a rebinding, the scope that lower_if_else leaves on the stack (constant
+   condition, early return without pop_scope) makes an outer variable read the inner binding.  The checker rejects
+   such a program (name already bound), so no accepted source program reaches this. *)
+Theorem C01expr_rebinding_refuted :
+  exists (w : world) params body r,
+    (forall x, r x <> None -> In x params) /\ (forall p i, In p params -> tmp0 i <> p) /\
+    ~ agrees (seval w true r body []) (run_body Pinned w params body r).
+Proof. exact rebinding_refuted. Qed.
+
+(* ------------------------------------------------------------------ non-vacuity *)
+(* a body that uses every form of the fragment: the hypotheses of the body theorem hold, the source run is not
+   stuck, makes three calls, and the lowered statements (18 temporaries) give the same value and history *)
+Example C01expr_nonvacuous_value :
+  ns [2%N] e_rich /\
+  seval w_one true (env_x (VInt 5)) e_rich [] =
+    SVal (VInt 7) [(FUser 8, [VInt 0]); (FUser 6, [VStruct [VInt 8; VStr [97%N; 98%N]]; VInt (-8)]);
+                   (FUser 5, [VInt 0; VStr [97%N; 98%N; 99%N]])] /\
+  run_body Pinned w_one [2%N] e_rich (env_x (VInt 5)) = seval w_one true (env_x (VInt 5)) e_rich [] /\
+  snd (lower_body Pinned tmp0 [2%N] e_rich) = 18%nat.
+Proof. split; [apply (proj1 nsB_all); vm_compute; reflexivity|]. vm_compute. auto. Qed.
+
+(* both sides trap (10 / x with x = 0 after three calls), both sides abort (a call that does not return) *)
+Example C01expr_nonvacuous_trap :
+  exists tr, tr <> [] /\ seval (fun _ _ _ => Some (VInt 0)) true (env_x (VInt 0)) e_rich [] = SFail (FTrap tr) /\
+             run_body Pinned (fun _ _ _ => Some (VInt 0)) [2%N] e_rich (env_x (VInt 0)) = SFail (FTrap tr).
+Proof. eexists. split; [|split; vm_compute; reflexivity]. discriminate. Qed.
+
+Example C01expr_nonvacuous_abort :
+  let w : world := fun _ f _ => match f with FUser 7 => None | _ => Some (VInt 1) end in
+  exists tr, tr <> [] /\ seval w true (env_x (VInt (-1))) e_rich [] = SFail (FAbort tr) /\
+             run_body Pinned w [2%N] e_rich (env_x (VInt (-1))) = SFail (FAbort tr).
+Proof. eexists. split; [|split; vm_compute; reflexivity]. discriminate. Qed.
+
+(* a `let` with a tuple pattern: hypotheses hold, same value and history *)
+Example C01expr_nonvacuous_tuple_let :
+  ns [2%N] e_tuplelet /\
+  seval w_one true (env_x (VInt 5)) e_tuplelet [] = SVal (VInt (-1)) [(FUser 1, [VInt 0])] /\
+  run_body Pinned w_one [2%N] e_tuplelet (env_x (VInt 5)) = SVal (VInt (-1)) [(FUser 1, [VInt 0])].
+Proof. split; [apply (proj1 nsB_all); vm_compute; reflexivity|]. vm_compute. auto. Qed.
+
+(* a lambda that captures x, bound and called: the statements build the context record and the function value, the
+   call goes to the world, which here runs the model's synthetic function: 3 + 5 *)
+Example C01expr_nonvacuous_lambda :
+  seval w_lam true (env_x (VInt 5)) e_lambda [] = SVal (VInt 8) [(FLam 1, [VStruct [VInt 5]; VInt 3])] /\
+  run_body Pinned w_lam [2%N] e_lambda (env_x (VInt 5)) = SVal (VInt 8) [(FLam 1, [VStruct [VInt 5]; VInt 3])].
+Proof. vm_compute. auto. Qed.
+
+(* the pinned code on the witness of the seeded change: f is called *)
+Example C01expr_pinned_on_seeded_witness :
+  run_body Pinned w_one [2%N] e_seeded7 (env_x (VInt 1)) = SVal (VInt 1) [(FUser 1, [VInt 0])] /\
+  run_body Seeded7 w_one [2%N] e_seeded7 (env_x (VInt 1)) = SVal (VInt 1) [].
+Proof. vm_compute. auto. Qed.
+
+Print Assumptions C01expr_lower_sound.
+Print Assumptions C01expr_lower_args_sound.
+Print Assumptions C01expr_lower_blk_sound.
+Print Assumptions C01expr_lower_body_correct.
+Print Assumptions C01expr_lambda_fn_correct.
+Print Assumptions C01expr_counter_and_scopes.
+Print Assumptions C01expr_and_short_circuit.
+Print Assumptions C01expr_or_short_circuit.
+Print Assumptions C01expr_parts_present.
+Print Assumptions C01expr_seeded7_refuted.
+Print Assumptions C01expr_seeded7_parts_refuted.
+Print Assumptions C01expr_args_first_refuted.
+Print Assumptions C01expr_rebinding_refuted.
